@@ -74,6 +74,11 @@ CLAIMED = {
    text="Decides: IndexOf/FindIndex/Contains/Some/Every are complete forward scans and LastIndexOf/FindLastIndex complete backward scans whose match edge returns at once and whose default result is returned only through the loop exit; FindAll stores (index, element) of one iteration under the predicate; extremum functions seed with s[0] only under len > 0, scan forward, update on the strict comparison their name promises with the element just read and return the accumulator; ByKey variants read map values only under the comma-ok presence test; Sum/SumBy/Mean add each element exactly once in a complete scan; Clamp, InRange, Abs, Compare, Less, Equal are comparison-only and their decision tables over every order type of the arguments equal the defining inequalities (exhaustive, holds for all inputs); helpers use no mutable package-level state and start no goroutines. Nth, Range/RangeRight and numeric values are not decided.",
    note="Trusted: go/ssa; user callbacks are pure; OD2 first checks that the body is comparison-only (else undecided).",
    ref="DESIGN.md section 3 E4/E6, section 4 C13"),
+ "C15": dict(
+   technique="sibling-same-callee and callee-of-each-appended-rune rules, write-order rules, transposition-only rule, concatenation-shape and guard-dominance rules, helper hygiene on go/ssa over string.go",
+   text="Decides: ToLower/ToUpper/Capitalize range rune-wise and append for every rune exactly unicode.ToLower/ToUpper of that rune (upper at offset 0 for Capitalize) and convert back; SnakeCase/KebabCase are one helper call differing only in the delimiter; Wrap writes token, payload, token and WrapAllRune does so per rune; ReverseStr converts to []rune, only swaps in a two-pointer loop and converts back; Pad functions return the input unchanged under size <= len and otherwise concatenate in the documented order with the pad cut to exactly the missing length; SplitAtIndex returns on every path two complementary parts; Unwrap strips exactly len(token) from both ends only under HasPrefix, HasSuffix and len >= 2*len(token); Substr's final slice is dominated by the range tests; no mutable globals, no goroutines. Substr's offset arithmetic, pad availability and the regexp-based case converters are not decided.",
+   note="Trusted: go/ssa; contracts of unicode/strings functions used.",
+   ref="DESIGN.md section 3 E7 (AG5), section 4 C15"),
 }
 
 NOT_YET = "check not built yet (static-analysis engines under construction; see DESIGN.md section 7)"
